@@ -127,7 +127,8 @@ def one(ctx, word, n_up, n_down, sub_pos, down_pos, N, safelink=True, nsub=1, ss
             ob['received'].append((p.header, bytes(p.data)))
         th.stop()
         ob['alive'] = th.is_alive()
-    _, abort, sch = harness.sched_case(fn, seed=sseed, policy=policy, horizon=4000.0, max_steps=5_000_000)
+    _, abort, sch = harness.sched_case(fn, seed=sseed, policy=policy, line_p=harness.line_p_for(sseed, 8, 0.1), horizon=4000.0, max_steps=5_000_000)
+    ctx.count('mon.statement_level_preemption_points', sch.line_points)
     import cflib.crtp.radiodriver as rd2
     rd2.set_retries_before_disconnect(old_N)
     ctx.evals()
